@@ -304,7 +304,20 @@ func c10r2(c *core.Ctx) {
 				if core.Callee(i) != notify {
 					return
 				}
-				a := core.Args(i)
+				// the arguments by the type of notifyListener's parameters (the function may have gained or lost leading parameters)
+				raw := core.CallOf(i).Args
+				byType := func(typ string) ssa.Value {
+					for k, pr := range notify.Params {
+						if k < len(raw) && core.TypeIs(pr.Type(), typ) {
+							return raw[k]
+						}
+					}
+					return nil
+				}
+				a := []ssa.Value{byType(mod + "/accessory.Accessory"), byType(tChar), byType("net.Conn")}
+				if a[0] == nil || a[1] == nil || a[2] == nil {
+					return
+				}
 				// a: captured accessory param; c: own parameter or captured loop variable; except: own conn / nil
 				accOK := valIs(a[0], acc) || core.AnySource(a[0], func(v ssa.Value) bool {
 					fv, ok := v.(*ssa.FreeVar)
